@@ -62,6 +62,21 @@ def run(res):
     rng = rng_for('C02')
     cases, n_exh = cases_for(res, rng)
     st = mc_common.run_cases(res, 'LTL', cases, 'C02')
+    # internal-level tie of the one component that used to be modelled declaratively: closure, processing order, atom
+    # multisets, _checkE_path_formula, under several hash seeds in fresh interpreters (harness/validate_ltlatoms.py)
+    import os
+    import subprocess
+    import sys
+    import common
+    vp = subprocess.run([sys.executable, os.path.join(common.ROOT, 'harness', 'validate_ltlatoms.py'), '--tier',
+                         'smoke' if res.tier == 'quick' else 'quick'], stdout=subprocess.PIPE, stderr=subprocess.STDOUT,
+                        text=True, env=dict(os.environ, REPO=common.REPO))
+    atoms_out = vp.stdout
+    if vp.returncode != 0:
+        res.violation('the tableau atoms built by _get_closure / _build_atoms / _Tableu differ from the model buildAtoms '
+                      '(PMC/Model/LTLAtoms.lean, proved equivalent to the declarative tableau): ' + atoms_out[-700:].replace('\n', ' '),
+                      {'validator_output_tail': atoms_out[-3000:]})
+    res.coverage['atom_level_validation'] = atoms_out[-900:]
     problems = proof_coverage(res, THEOREMS, MODULES)
     for p in problems:
         res.violation('proof obligation no longer checks: ' + p, {'theorem_or_module': p}, no_input=True)
